@@ -52,7 +52,7 @@ func verifH_C12_doc_tpl() {
 	tplTag := verifByte()
 	verifAssume(tplTag&0x20 != 0 && tplTag&0x1f != 0x1f)
 	inner := verifTLV([]byte{tplTag}, append(leaf, leaf2...))
-	cnt := verifTLV([]byte{0x02}, []byte{verifByte()})
+	cnt := verifTLV([]byte{0x02}, verifBytes(verifParam("C")))
 	body := append(append([]byte(nil), cnt...), inner...)
 	if verifBool() {
 		body = append(verifTLV([]byte{0x5C}, verifBytes(2)), body...)
